@@ -46,6 +46,8 @@ type Target struct {
 	Extra    string            `json:"extra,omitempty"`    // raw extra arguments, e.g. `optional_outs = ["x"],`
 	Comment  string            `json:"comment,omitempty"`  // a BUILD-file comment: changes the file, not the target
 	OutIsDir bool              `json:"out_is_dir,omitempty"` // the single declared out is a directory
+	// OutGroups: when set the outs are declared in dict form, outs = {group: [...]}; Outs still lists ALL of them
+	OutGroups map[string][]string `json:"out_groups,omitempty"`
 }
 
 type Pkg struct {
@@ -79,6 +81,12 @@ func (s *Spec) Clone() *Spec {
 			c.Hashes = append([]string{}, t.Hashes...)
 			c.Data = append([]string{}, t.Data...)
 			c.Cmd.Args = append([]string{}, t.Cmd.Args...)
+			if t.OutGroups != nil {
+				c.OutGroups = map[string][]string{}
+				for k, v := range t.OutGroups {
+					c.OutGroups[k] = append([]string{}, v...)
+				}
+			}
 			if t.Env != nil {
 				c.Env = map[string]string{}
 				for k, v := range t.Env {
@@ -219,7 +227,21 @@ func (t *Target) Render(pkg, logPath string) string {
 		if len(t.Srcs) > 0 {
 			fmt.Fprintf(&b, "    srcs = %s,\n", pyList(t.Srcs))
 		}
-		if len(t.Outs) > 0 {
+		if len(t.OutGroups) > 0 { // dict form, in the order given by the (sorted) group names of the Spec
+			keys := make([]string, 0, len(t.OutGroups))
+			for k := range t.OutGroups {
+				keys = append(keys, k)
+			}
+			sort.Strings(keys)
+			b.WriteString("    outs = {")
+			for i, k := range keys {
+				if i > 0 {
+					b.WriteString(", ")
+				}
+				b.WriteString(pyStr(k) + ": " + pyList(t.OutGroups[k]))
+			}
+			b.WriteString("},\n")
+		} else if len(t.Outs) > 0 {
 			fmt.Fprintf(&b, "    outs = %s,\n", pyList(t.Outs))
 		}
 		if len(t.OutDirs) > 0 {
